@@ -176,4 +176,6 @@ P256_B = 0x5AC635D8AA3A93E7B3EBBD55769886BC651D06B0CC53B0F63BCE3C3E27D2604B
 
 
 def on_p256(x, y):
-    return 0 <= x and x < P256_P and 0 <= y and y < P256_P and (y * y - (x * x * x + P256_A * x + P256_B)) % P256_P == 0
+    """(x, y) satisfies the curve equation over GF(p).  Coordinates are taken modulo p: an encoding with
+    x >= p or y >= p (possible in 32 bytes) names the reduced point, which is how both back ends treat it."""
+    return (y * y - (x * x * x + P256_A * x + P256_B)) % P256_P == 0
